@@ -21,7 +21,7 @@ structure Frame where
   follows : Bool := false
   complete : Bool := false      -- also LEASE flag of SETUP
   next : Bool := false
-  respond : Bool := false       -- KEEPALIVE respond / SETUP resume
+  respond : Bool := false       -- KEEPALIVE respond / SETUP resume / ERROR: the error text is not valid UTF-8
   n : Nat := 0                  -- request-n / initial request-n / lease count
   code : Nat := 0               -- error code / lease ttl (ms)
   data : List Nat := []
